@@ -73,6 +73,9 @@ func setupTLSConfig(sslOpts *SslOptions) (*tls.Config, error) {
 	if sslOpts.CaPath != "" {
 		if tlsConfig.RootCAs == nil {
 			tlsConfig.RootCAs = x509.NewCertPool()
+		} else {
+			// tls.Config.Clone is shallow: do not add our CA to the caller's pool
+			tlsConfig.RootCAs = tlsConfig.RootCAs.Clone()
 		}
 
 		pem, err := ioutil.ReadFile(sslOpts.CaPath)
